@@ -17,6 +17,7 @@ import (
 	"github.com/privacybydesign/gabi"
 	"github.com/privacybydesign/gabi/big"
 	"github.com/privacybydesign/gabi/gabikeys"
+	"github.com/privacybydesign/gabi/revocation"
 	"github.com/privacybydesign/gabi/verifx"
 )
 
@@ -126,9 +127,42 @@ func stress(a *hx.Args, rng *mrand.Rand, res *hx.Result) {
 	for round := 0; round < rounds; round++ {
 		for _, G := range []int{2, 4, maxG} {
 			runtime.GOMAXPROCS(1 + rng.Intn(runtime.NumCPU()))
-			kp := hx.FreshKey1024(round % 2) // a freshly loaded key object: lazily initialised state inside it is raced for as well
+			kp := hx.FreshKey1024(round % 2)  // a freshly loaded key object: lazily initialised state inside it is raced for as well
 			cred, _ := newCredential(kp, rng) // first-time cache preparation races with the provers
+			if round%2 == 1 {
+				// the credential comes from storage: its witness has not unmarshaled its accumulator yet, the first users do that
+				bts, err := json.Marshal(cred)
+				if err != nil {
+					hx.Fatal("marshal credential: %v", err)
+				}
+				stored := &gabi.Credential{Pk: kp.PK}
+				if err := json.Unmarshal(bts, stored); err != nil {
+					hx.Fatal("unmarshal credential: %v", err)
+				}
+				cred = stored
+			}
 			var wg sync.WaitGroup
+			// witnesses that share one locally signed accumulator object, verified concurrently
+			{
+				upd, err := revocation.NewAccumulator(kp.SK)
+				if err != nil {
+					hx.Fatal("NewAccumulator: %v", err)
+				}
+				for i := 0; i < 4; i++ {
+					w, err := revocation.RandomWitness(kp.SK, upd.SignedAccumulator.Accumulator)
+					if err != nil {
+						hx.Fatal("RandomWitness: %v", err)
+					}
+					w.SignedAccumulator = upd.SignedAccumulator
+					wg.Add(1)
+					go func() {
+						defer wg.Done()
+						if err := w.Verify(kp.PK); err != nil {
+							res.Violation("shared-accumulator-witness-invalid", fmt.Sprintf("Witness.Verify under concurrency: %v", err), nil)
+						}
+					}()
+				}
+			}
 			seeds := make([]int64, G)
 			for i := range seeds {
 				seeds[i] = rng.Int63()
